@@ -315,6 +315,7 @@ class Interp:
         if name in self.module_models:
             m = self.module_models[name](self)
             self.modules[name] = m
+            self.exec_prelude(m, name)
             return m
         top = name.split('.')[0]
         if top in ('oslo_utils', 'contracts'):
@@ -326,6 +327,29 @@ class Interp:
         m = ModuleVal(name)
         m.opaque = True
         self.modules[name] = m
+        return m
+
+    def exec_prelude(self, m, name):
+        """Merge pyvc/prelude/<name>.py - Python-level models, interpreted
+        like any other source - into the module model m."""
+        path = os.path.join(os.path.dirname(os.path.abspath(__file__)),
+                            'prelude', name + '.py')
+        if not os.path.exists(path):
+            return m
+        with open(path) as f:
+            src = f.read()
+        tree = ast.parse(src, path)
+        keep = dict(m.ns)
+        m.ns.setdefault('__name__', m.name)
+        fr = Frame(None, m.ns, [], m, None)
+        self.frames.append(fr)
+        try:
+            for st in tree.body:
+                self.exec_stmt(st, fr)
+        finally:
+            self.frames.pop()
+        # engine builtins win over prelude definitions of the same name
+        m.ns.update(keep)
         return m
 
     def load_file(self, name, filename):
@@ -1372,6 +1396,16 @@ class Interp:
                 return tuple(o.mro)
             if name == '__module__':
                 return o.module.name if o.module else 'builtins'
+            in_model = any(
+                getattr(getattr(c, 'module', None), 'name', '').startswith(
+                    'contracts') for c in o.mro if isinstance(c, ClassVal))
+            absent, _ = o.lookup('__absent__')
+            if in_model and name not in (absent or ()) \
+                    and not name.startswith('__') \
+                    and not getattr(self, 'probing', 0):
+                raise Unsupported("model gap: the model class %s of a "
+                                  "contract script has no attribute '%s'"
+                                  % (o.name, name))
             self.throw(AttributeError, "type object '%s' has no attribute "
                        "'%s'" % (o.name, name))
         if isinstance(o, ModuleVal):
